@@ -311,6 +311,11 @@ var c22Bodies = []string{
 	"select * from t where name = 'x' and id in (1,2)",
 	"select * from t1 join t2 on t1.id = t2.id where t1.a > 5",
 	"select `a`, `b` from `t` where `c` = \"d\"",
+	// a backslash is an ordinary character inside a back-quoted identifier (seeded change C22-4)
+	"select * from `t\\`",
+	"select `a\\` from t where id = 1",
+	"select * from `t\\` where note = '`'",
+	"select * from `a\\\\` join `b\\` on 1",
 	"select count(*) from t group by a order by b limit 3",
 	"select * from t where note = 'for update'",
 	"select * from t where note = 'a -- b'",
